@@ -791,7 +791,7 @@ func main() {
 		}
 		run.Add(kind, "("+terms[i]+")", cs, cs.Name+"/"+fmt.Sprint(len(cs.Ops))+"/"+fmt.Sprint(hashSpec(cs)))
 	}
-	rule := "histories of 12-22 requests (POST key plain/replace/conditional, POST keyvalues, DELETE, schema posts/deletes, commit, newversion, restart; rejected requests included) over ids of 1-3 digits and JSON values of every kind, each followed by 30-45 read requests (every endpoint, every query form) observed at five points; a case is distinct by its request list"
+	rule := "histories of 12-22 requests (POST key plain/replace/conditional, POST keyvalues, DELETE, schema posts/deletes, commit, newversion, restart; rejected requests included) over ids of 1-3 digits and JSON values of every kind, each followed by 45-55 read requests (every endpoint, every query form) observed at six points; a case is distinct by its request list"
 	if o.Replay != "" {
 		rule = "replay"
 	}
